@@ -126,7 +126,10 @@ _fi.raises = {"FileNotFoundError": (lambda c: Implies(c.h.get("FileSystem.is_loc
 
 # ---------------- HashFileDB.check ----------------
 def _local(c):
-    return c.h0.get("FileSystem.is_local", c.h0.get("HashFileDB.fs", c.self))
+    """the store sits on a local filesystem and its algorithm name is an algorithm name (see contracts.state.alg_name)"""
+    from contracts.state import alg_name
+
+    return And(c.h0.get("FileSystem.is_local", c.h0.get("HashFileDB.fs", c.self)), alg_name(c.h0.get("HashFileDB.hash_name", c.self)))
 
 
 def _check_pre(c):
